@@ -96,7 +96,7 @@ class C15(Property):
         dr = [[0.0, 0.5, 0.9999999999999999, 0.25, 0.75, 0.125], [0.9999999999999999] * 6]
         for st, sp, fa, c, j, d in itertools.product([0.0, 0.25, 1.5, -1.0], [0.5, 2.0, 7.5, 0.0], [1.0, 1.5, 2.0, 0.5],
                                                      [None, 'repeat', 0, 4, -1], jit, dr):
-            yield self.mk('I', st, sp, c, fa, j, d, take=5)
+            yield self.mk('L' if (c != 'repeat' and d[0] == 0.0) else 'I', st, sp, c, fa, j, d, take=5)
         for c in self.grid_q():
             yield c
 
@@ -344,7 +344,9 @@ class C15(Property):
             obs['base'] = self.call(case, False)
         k = 'exc:' + str(obs['exc']) if obs['exc'] else 'count:' + ('None' if case['count'] is None else
                                                                    'repeat' if case['count'] == 'repeat' else 'int')
-        self.stats[k] = self.stats.get(k, 0) + 1
+        for k in (k, 'inst:' + case['inst'], 'fn:' + ('backoff' if case['fn'] == 'L' else 'backoff_iter'),
+                  'jitter:' + ('on' if j != 0.0 else 'off'), 'values:%s' % min(len(obs['vals']).bit_length(), 12)):
+            self.stats[k] = self.stats.get(k, 0) + 1
         return obs
 
     def render(self, case, obs):
@@ -487,16 +489,31 @@ class C15(Property):
             return
         if case['fn'] == 'I' and c != 'repeat':
             yield dict(case, fn='L')
-        simple = [1.0, 2.0, 0.0, 0.5, 10.0, 3.0]
         for k in ('start', 'stop', 'factor', 'jitter'):
             x = f(case[k])
-            for s in simple:
-                if s != x and (k != 'jitter' or x != 0.0):
+            if k == 'jitter' and x == 0.0:
+                continue
+            cx = self.complexity(x)
+            for s in SIMPLE:
+                if self.complexity(s) < cx:
                     yield dict(case, **{k: h(s)})
             for bits in (4, 12, 30):
                 y = math.copysign(self.short(abs(x), bits), x)
-                if y != x:
+                if self.complexity(y) < cx:
                     yield dict(case, **{k: h(y)})
+
+    @staticmethod
+    def complexity(x):
+        """well-founded measure for the shrinker: simple constants first, then fewer mantissa bits"""
+        if x in SIMPLE and math.copysign(1.0, x) > 0:
+            return SIMPLE.index(x)
+        if x == 0 or not math.isfinite(x):
+            return 100
+        m = int(math.frexp(abs(x))[0] * 2 ** 53)
+        return 100 + (53 - ((m & -m).bit_length() - 1))
+
+
+SIMPLE = [1.0, 2.0, 0.0, 0.5, 10.0, 3.0]
 
 
 PROPERTY = C15
